@@ -631,12 +631,12 @@ fn main() {
     check.assume("cursor rows whose (provider, endpoint, model) keys compare equal under the documented ordering are ordered by seq before comparison");
     check.assume("context compile is compared A==B here (with/without caches); its reference model is C08");
     let rule = "history (generated ops) -> cache fault(s) -> [restart] -> observe -> more appends -> [restart] -> observe; every read capability evaluated on the store as found (A), on a copy without caches (B) and on the model over truth (M). non-trivial = >=1 effective fault and (append or restart after it) before a read; distinct by case hash";
-    let n = check.cases(1200, 40_000);
+    let n = check.cases(3000, 60_000);
     let known = KnownFindings::load("C04");
     check.group("single_fault", rule, GroupOpts { cases: n, ..Default::default() }, || case_strategy(true), |c| run(c, &known));
-    let n = check.cases(500, 15_000);
+    let n = check.cases(1200, 24_000);
     check.group("multi_fault", "same with 2-4 faults on any subset of the cache files", GroupOpts { cases: n, ..Default::default() }, || case_strategy(false), |c| run(c, &known));
-    let n = check.cases(16, 300);
+    let n = check.cases(20, 300);
     check.group(
         "long",
         "threads longer than every bounded tail window (>10^4 frames, sidecars >256 KiB and >8 MiB, dense non-message frames) with the frames the reads look for placed early; optional cache fault and restart; non-trivial = frames>10^4 or sidecar>256KiB",
